@@ -593,8 +593,10 @@ def generate(unit, template_path, repo=None, canary=False):
                                 j = match_close(st, j)
                             elif t.kind == 'p' and t.text == ';':
                                 break
-                            elif t.kind == 'p' and t.text in (')', ']', '}'):
-                                raise AnchorError(f'{fi.name}: proof anchor after={callee}#{ordn}: call is nested in an expression')
+                            elif t.kind == 'p' and t.text in (')', ']'):
+                                pass        # the call is an argument of an enclosing call: the hint goes after the enclosing statement
+                            elif t.kind == 'p' and t.text == '}':
+                                raise AnchorError(f'{fi.name}: proof anchor after={callee}#{ordn}: call is the tail of a block')
                             j += 1
                         if j >= len(st):
                             raise AnchorError(f'{fi.name}: proof anchor after={callee}#{ordn}: no statement end')
